@@ -118,10 +118,6 @@ pub fn run_pipeline(
     capture: bool,
     log_cmd: bool,
 ) -> (bool, CommandResult) {
-    #[cfg(cicada_verif)]
-    if let Some(r) = crate::verif_hooks::scripted_run_pipeline(sh, cl, capture) {
-        return r;
-    }
     let mut term_given = false;
     if cl.background && capture {
         println_stderr!("cicada: cannot capture output of background cmd");
@@ -147,6 +143,10 @@ pub fn run_pipeline(
         return (false, CommandResult::error());
     }
 
+    #[cfg(cicada_verif)]
+    if let Some(r) = crate::verif_hooks::scripted_run_pipeline(sh, cl, capture) {
+        return r;
+    }
     let mut pipes = Vec::new();
     let mut errored_pipes = false;
     for _ in 0..length - 1 {
